@@ -279,6 +279,58 @@ def random_body(rng, n, depth, nv, nl):
     return out
 
 
+def valid_body(rng, n, depth, scope, counter, outer_pending):
+    """mostly-valid bodies: uses pick visible variables, every goto gets a fresh label that is placed later in
+    this block or handed to an enclosing one; declarations pick fresh names (sometimes a clash)"""
+    out = []
+    scope = list(scope)
+    pending = []          # labels that must still be placed in this block
+    while n > 0:
+        r = rng.below(100)
+        if pending and rng.chance(1, 4):
+            out.append(('label', pending.pop(rng.below(len(pending)))))
+            continue
+
+        def pickv():
+            if scope and not rng.chance(1, 15):
+                return rng.pick(scope)
+            return 1 + rng.below(6)
+        if r < 25:
+            counter[1] += 1
+            v = counter[1] if not rng.chance(1, 12) else pickv()
+            out.append(('decl', v, [pickv() for _ in range(rng.below(3))] if scope else []))
+            scope.append(v)
+        elif r < 50 and scope:
+            out.append(('use', [pickv() for _ in range(1 + rng.below(3))]))
+        elif r < 72:
+            counter[0] += 1
+            lab = counter[0]
+            if outer_pending is not None and rng.chance(1, 3):
+                outer_pending.append(lab)
+            else:
+                pending.append(lab)
+            g = ('goto', lab)
+            if rng.chance(1, 2):
+                g = ('if', [pickv()] if scope else [R], g)
+            out.append(g)
+        elif depth > 0 and n > 1:
+            m = 1 + rng.below(min(n - 1, 5))
+            inner = valid_body(rng, m, depth - 1, scope, counter, pending)
+            if rng.chance(1, 2):
+                out.append(('block', inner))
+            else:
+                out.append(('if', [pickv()] if scope else [R], ('block', inner)))
+            n -= m
+        else:
+            out.append(('use', [R]))
+        n -= 1
+    for lab in pending:
+        out.append(('label', lab))
+        if scope and rng.chance(1, 2):
+            out.append(('use', [rng.pick(scope)]))
+    return out
+
+
 def main():
     rep = Reporter("C05")
     if not setup_common(rep, THEOREMS):
@@ -293,6 +345,8 @@ def main():
     n_exh = len(cases)
     for i in range(60000 if thorough else 4000):
         cases.append((random_body(rng, 1 + rng.below(14 if i % 3 else 30), 3, 2 + rng.below(2), 1 + rng.below(3)), i % 3))
+    for i in range(60000 if thorough else 4000):
+        cases.append((valid_body(rng, 2 + rng.below(16), 3, [R], [10, 10], None), i % 3))
     reqs = [requests(b, v) for (b, v) in cases]
     m = run_model([r[1] for r in reqs])
     # keep label-correct bodies only (the property is stated on those; E400/E420 gotos/labels are poisoned
